@@ -222,6 +222,43 @@ def run(ctx):
         ctx.ob('C19.lexer-error-context', f'{lex.cls}.error', bool(ok),
                f'{lex.cls}.error does not raise LexError on every path (a return resumes lexing after the illegal character)',
                file=lex.file, line=ef.lineno)
+    if ef is not None:
+        # the message of the lexer error, interpreted on probe texts (LF and CRLF layouts): the last shown line contains the illegal character and the caret is
+        # under it
+        from ..interp import Interp, Obj, Raised, Env
+        probe_texts = ['select #', 'select a\nfrom t #', 'select a\n  from t\nwhere # x', '#', 'select a\r\nfrom t\r\nwhere ^ x', 'a\r\n#', 'select 1\n\n\n  #']
+        for text in probe_texts:
+            idx = min(i for i in (text.find('#'), text.find('^')) if i >= 0)
+            it = Interp({}, {'LexError': lambda itp, *a: Obj('LexError', args=tuple(a))})
+            it.module = ctx.src.tree(lex.file)
+            self_ = Obj(lex.cls, text=text, index=idx)
+            tok = Obj('Token', value=text[idx:], index=idx, lineno=text.count('\n', 0, idx) + 1, type='ERROR')
+            msg = None
+            try:
+                it.call_function(ef, [self_, tok], {}, Env())
+            except Raised as r:
+                if r.exc_name == 'LexError' and r.obj is not None and r.obj.args:
+                    msg = r.obj.args[0]
+            label = repr(text)
+            ok = isinstance(msg, str)
+            detail = 'no LexError message'
+            if ok:
+                ls = msg.split('\n')
+                shown = [l[1:] for l in ls if l.startswith('>')]
+                caret = [l for l in ls if set(l) <= {'-', '^'} and l.endswith('^')]
+                ok = bool(shown) and len(caret) == 1
+                detail = msg
+                if ok:
+                    col = len(caret[0]) - 1
+                    last = shown[-1]
+                    # the same character of the source must be under the caret (columns are counted in the shown line, which starts after the '>')
+                    line_start = max(text.rfind('\n', 0, idx) + 1, 0)
+                    want_col = idx - line_start
+                    shown_last = '>' + last           # the caret line is aligned with the line as displayed, i.e. with its '>' prefix
+                    ok = col == want_col + 1 and col < len(shown_last) and shown_last[col] == text[idx]
+            ctx.ob('C19.lexer-error-context', f'{lex.cls}.error:{label}', ok,
+                   f'{lex.cls}.error on {label} (illegal character at offset {idx}) builds the message {detail!r}: the shown line must contain the character and the '
+                   f'caret must be under it, for LF and CRLF line ends alike', file=lex.file, line=ef.lineno, witness='select a\\r\\nfrom t #')
     ctx.sample({'display_examples': {r.name: sm.classify(r.name, r.pattern)[1] for r in lex.rules[:60:7] if r.func is None}})
     ctx.sample({'thresholds': [sm.lo, sm.hi], 'placeholders': covered})
     ctx.floor('display_strings', 150)
